@@ -148,6 +148,43 @@ func (m *Machine) runsInit(p *ssa.Package) bool {
 }
 
 // initTouches reports whether g is referenced by its package initialiser.
+func (rr *RunResult) noteAlternative(label string, v *Vector) {
+	if rr.AltViolations == nil {
+		rr.AltViolations = map[string][]*Vector{}
+		rr.altSeen = map[string]map[[2]uint64]bool{}
+	}
+	seen := rr.altSeen[label]
+	if seen == nil {
+		seen = map[[2]uint64]bool{}
+		rr.altSeen[label] = seen
+		if first := rr.Violations[label]; first != nil {
+			for i, k := range first.Kinds {
+				if k == "choose" || k == "bool" {
+					seen[[2]uint64{uint64(i), first.Values[i]}] = true
+				}
+			}
+		}
+	}
+	if len(rr.AltViolations[label]) >= 64 {
+		return
+	}
+	fresh := false
+	for i, k := range v.Kinds {
+		if (k == "choose" || k == "bool") && !seen[[2]uint64{uint64(i), v.Values[i]}] {
+			fresh = true
+		}
+	}
+	if !fresh {
+		return
+	}
+	for i, k := range v.Kinds {
+		if k == "choose" || k == "bool" {
+			seen[[2]uint64{uint64(i), v.Values[i]}] = true
+		}
+	}
+	rr.AltViolations[label] = append(rr.AltViolations[label], v)
+}
+
 func (m *Machine) initTouches(g *ssa.Global) bool {
 	m.mu.Lock()
 	defer m.mu.Unlock()
@@ -258,6 +295,14 @@ type RunResult struct {
 	UnknownBr  int
 	Labels     map[string]*LabelStat
 	Violations map[string]*Vector // first vector per label
+	// further counterexamples of footprint labels, kept for diversity: a vector is
+	// kept when some solver choice (vChoose / nondetBool) takes a value in it that
+	// none of the kept vectors of that label has at that position. A footprint
+	// candidate is a violation only if the race detector confirms it natively,
+	// and which choice of the harness makes the sharing a real race is not known
+	// beforehand.
+	AltViolations map[string][]*Vector
+	altSeen       map[string]map[[2]uint64]bool
 	KnownSeen  map[string]*Vector // by KF id
 	Reached    map[string]*Vector
 	Panics     map[string]*Vector // by message
@@ -441,6 +486,8 @@ func (m *Machine) merge(rr *RunResult, res *PathResult) {
 			ls.Violated++
 			if _, ok := rr.Violations[a.Label]; !ok {
 				rr.Violations[a.Label] = a.Vec
+			} else if a.Vec != nil && strings.HasPrefix(a.Label, "no-unsynchronised-shared-access") {
+				rr.noteAlternative(a.Label, a.Vec)
 			}
 		case "known":
 			ls.Known++
